@@ -10,7 +10,9 @@ import (
 
 	clptypes "github.com/Sifchain/sifnode/x/clp/types"
 	disptypes "github.com/Sifchain/sifnode/x/dispensation/types"
+	margintypes "github.com/Sifchain/sifnode/x/margin/types"
 	tokenregistrytypes "github.com/Sifchain/sifnode/x/tokenregistry/types"
+	sdk "github.com/cosmos/cosmos-sdk/types"
 
 	"sifverif/chain"
 	"sifverif/env"
@@ -326,6 +328,125 @@ func C14(c Ctx) *report.Report {
 		}
 		n++
 	}
+	// (6) margin states: open positions of several owners (some closed again, so that ids have gaps), margin parameters,
+	// whitelist, the pools' custody / liabilities / interest fields
+	{
+		mnext := 3000000
+		mhs := []MHistory{scriptCounters()} // corpus first (finding F-19)
+		mhs = append(mhs, RunMarginHistories(c, rep, rng, c.N(8, 120), 30, &mnext)...)
+		for _, h := range mhs {
+			e := h.Env
+			settle(e.Chain)
+			s1 := e.MarginSnapshot()
+			r := roundTrip(e.Chain)
+			replay := map[string]interface{}{"margin_history": h.Desc, "steps": len(h.Steps), "positions": len(s1.MTPs), "open_count": s1.Open, "lifetime_count": s1.Count}
+			reportRT(rep, "margin", r, replay)
+			rep.Count("roundtrip.margin")
+			if len(s1.MTPs) > 0 {
+				rep.Count("roundtrip.margin.with-positions")
+			}
+			n++
+			if r.Chain2 == nil {
+				continue
+			}
+			e2 := *e
+			e2.Chain = r.Chain2
+			s2 := e2.MarginSnapshot()
+			cases = append(cases, marginGenCase(len(cases), e, s1, r.Gen1["margin"], s2))
+			rep.CaseIndex[fmt.Sprint(len(cases)-1)] = replay
+			js := func(v interface{}) string { b, _ := json.Marshal(v); return string(b) }
+			cmp := func(what string, a, b interface{}) {
+				if js(a) != js(b) {
+					d := map[string]interface{}{"exporting_chain": trunc(js(a), 300), "imported_chain": trunc(js(b), 300)}
+					for k, v := range replay {
+						d[k] = v
+					}
+					rep.Violate("C14/queries-differ/margin-"+what, "read from the re-imported chain: "+what+" differs", d)
+				}
+			}
+			cmp("positions", s1.MTPs, s2.MTPs)
+			cmp("open-count", s1.Open, s2.Open)
+			if s1.Count != s2.Count {
+				var maxID uint64
+				for _, m := range s1.MTPs {
+					if uint64(m.ID) > maxID {
+						maxID = uint64(m.ID)
+					}
+				}
+				d := map[string]interface{}{"exporting_chain": s1.Count, "imported_chain": s2.Count, "highest_open_id": maxID}
+				for k, v := range replay {
+					d[k] = v
+				}
+				if s2.Count == maxID {
+					// the genesis format has no field for the lifetime counter: the import restores it to the highest id among the
+					// open positions, so positions opened later and closed again before the export are not counted
+					rep.Violate("C14/queries-differ/margin-lifetime-count/closed-after-highest-open", fmt.Sprintf("lifetime position counter %d on the exporting chain, %d on the imported one", s1.Count, s2.Count), d)
+				} else {
+					rep.Violate("C14/queries-differ/margin-lifetime-count", fmt.Sprintf("lifetime position counter %d on the exporting chain, %d on the imported one (highest open id %d)", s1.Count, s2.Count, maxID), d)
+				}
+			}
+			cmp("params", s1.Params, s2.Params)
+			cmp("whitelist", s1.Whitelist, s2.Whitelist)
+			cmp("pools", s1.Pools, s2.Pools)
+			cmp("balances", s1.Balances, s2.Balances)
+			// the imported chain goes on: every owner of a position opens one more like it, then closes the old one; no stored
+			// position may disappear other than the closed one, and the counters keep following the stored positions
+			for _, m := range s1.MTPs {
+				var owner chain.Account
+				ok := false
+				for _, u := range e2.Users {
+					if e2.AcctID[u.Addr.String()] == m.Addr {
+						owner, ok = u, true
+					}
+				}
+				if !ok {
+					continue
+				}
+				denomName := func(id int64) string {
+					for d, i := range e2.DenomID {
+						if i == id {
+							return d
+						}
+					}
+					return ""
+				}
+				coll, bor := denomName(m.CollAsset), denomName(m.CustAsset)
+				amt := new(big.Int).Div(m.CollAmt, big.NewInt(2))
+				if amt.Sign() == 0 {
+					continue
+				}
+				e2.BeginBlock()
+				before := e2.MarginSnapshot()
+				if uint64(len(before.MTPs)) != before.Open {
+					rep.Violate("C14/imported-chain/open-count-off", fmt.Sprintf("after the first block of the imported chain: %d stored positions, open counter %d", len(before.MTPs), before.Open), replay)
+				}
+				res := e2.Tx(owner, &margintypes.MsgOpen{Signer: owner.Addr.String(), CollateralAsset: coll, CollateralAmount: env.U(amt), BorrowAsset: bor, Position: margintypes.Position_LONG, Leverage: sdk.NewDec(2)})
+				after := e2.MarginSnapshot()
+				d := map[string]interface{}{"probe": "open on the imported chain by an owner of an imported position", "owner": owner.Addr.String(), "imported_position_id": m.ID, "code": res.Code, "log": trunc(res.Log, 120),
+					"positions_before": len(before.MTPs), "positions_after": len(after.MTPs), "open_count_after": after.Open}
+				for k, v := range replay {
+					d[k] = v
+				}
+				rep.Count("roundtrip.margin.probe.open." + okStr(res.Code == 0))
+				if res.Code == 0 && len(after.MTPs) != len(before.MTPs)+1 {
+					rep.Violate("C14/imported-chain/open-overwrites-position", fmt.Sprintf("an accepted Open left %d stored positions where there were %d", len(after.MTPs), len(before.MTPs)), d)
+				}
+				if uint64(len(after.MTPs)) != after.Open {
+					rep.Violate("C14/imported-chain/open-count-off", fmt.Sprintf("%d stored positions, open counter %d", len(after.MTPs), after.Open), d)
+				}
+				res = e2.Tx(owner, &margintypes.MsgClose{Signer: owner.Addr.String(), Id: uint64(m.ID)})
+				closed := e2.MarginSnapshot()
+				rep.Count("roundtrip.margin.probe.close." + okStr(res.Code == 0))
+				if uint64(len(closed.MTPs)) != closed.Open {
+					d["close_code"] = res.Code
+					rep.Violate("C14/imported-chain/open-count-off", fmt.Sprintf("after a Close: %d stored positions, open counter %d", len(closed.MTPs), closed.Open), d)
+				}
+				e2.EndBlock()
+				e2.Commit()
+				break
+			}
+		}
+	}
 	for i := 0; i*40 < len(cases); i++ {
 		end := (i + 1) * 40
 		if end > len(cases) {
@@ -337,7 +458,7 @@ func C14(c Ctx) *report.Report {
 	rep.Evaluations = n
 	rep.DistinctNontrivial = n
 	rep.ImplTraces = n
-	rep.Rule = "one case = one reachable state (final state of a generated AMM / bridge / dispensation history, the state after an accepted policy message, or a registry uploaded with MsgSetRegistry in any order and with repeated denoms, then edited) exported with ExportAppStateAndValidators, imported by InitChain into a fresh application, exported again: per-module JSON of the eight Sifchain modules compared (epochs start height exempt), and the harness's state readers (pools, providers, buckets, periods, prophecies, whitelists, records, claims, balances) compared on both applications"
+	rep.Rule = "one case = one reachable state (final state of a generated AMM / bridge / dispensation / margin history, the state after an accepted policy message, or a registry uploaded with MsgSetRegistry in any order and with repeated denoms, then edited) exported with ExportAppStateAndValidators, imported by InitChain into a fresh application, exported again: per-module JSON of the eight Sifchain modules compared (epochs start height exempt), and the harness's state readers (pools, providers, buckets, periods, prophecies, whitelists, records, claims, margin positions, position counters, margin parameters, whitelist, balances) compared on both applications"
 	return rep
 }
 
@@ -517,5 +638,52 @@ func dispGenCase(id int, h dHistory, s1 dState, raw json.RawMessage, s2 dState) 
 		en.Len(0)
 	}
 	ids.carried(en, s2)
+	return en.Coq()
+}
+
+// scriptCounters: corpus history for C14 — two positions opened, the later one closed again: the lifetime counter (2) is
+// above the highest id among the open positions (1).
+func scriptCounters() MHistory {
+	desc := map[string]interface{}{"corpus": "two positions opened by two owners, the second closed before the export; one address on the margin whitelist"}
+	e := env.New(env.Opts{NUsers: 4, Tokens: []string{"ceth"}})
+	e.BeginBlock()
+	mustOK(e.UpdateRewardsParams(0, 0, 0, "", false), "rewards params")
+	n := new(big.Int).Mul(big.NewInt(1000000), chain.E(18))
+	mustOK(e.CreatePool(e.Users[0], "ceth", n, n), "create pool")
+	ps := *margintypes.DefaultGenesis().Params
+	ps.ForceCloseFundAddress, ps.IncrementalInterestPaymentFundAddress = e.Users[0].Addr.String(), e.Users[0].Addr.String()
+	mustOK(e.Tx(e.Admin, &margintypes.MsgUpdateParams{Signer: e.Admin.Addr.String(), Params: &ps}), "margin params")
+	mustOK(e.Tx(e.Admin, &margintypes.MsgUpdatePools{Signer: e.Admin.Addr.String(), Pools: []string{"ceth"}}), "margin pools")
+	e.NextBlock()
+	e.NextBlock()
+	for _, u := range e.Users[2:4] {
+		m := margintypes.MsgOpen{Signer: u.Addr.String(), CollateralAsset: "rowan", CollateralAmount: env.U(chain.E(18)), BorrowAsset: "ceth", Position: margintypes.Position_LONG, Leverage: sdk.NewDec(2)}
+		mustOK(e.Tx(u, &m), "open")
+	}
+	mustOK(e.Tx(e.Users[3], &margintypes.MsgClose{Signer: e.Users[3].Addr.String(), Id: 2}), "close")
+	mustOK(e.Tx(e.Admin, &margintypes.MsgWhitelist{Signer: e.Admin.Addr.String(), WhitelistedAddress: e.Users[1].Addr.String()}), "whitelist")
+	return MHistory{ID: 9014, Env: e, Desc: desc}
+}
+
+// marginGenCase: the margin state of the exporting chain, the position list of the exported document in the document's own
+// order, the margin state of the imported chain (Check/Genesis.v, GMargin).
+func marginGenCase(id int, e *env.Env, s1 env.MarginState, raw json.RawMessage, s2 env.MarginState) string {
+	var g margintypes.GenesisState
+	e.App.AppCodec().MustUnmarshalJSON(raw, &g)
+	en := &env.Enc{}
+	en.I(3).I(int64(id))
+	en.Margin(s1)
+	en.Len(len(g.MtpList))
+	dn := func(sym string) int64 {
+		if i, ok := e.DenomID[sym]; ok {
+			return i
+		}
+		return 60000
+	}
+	for _, m := range g.MtpList {
+		en.I(e.AcctID[m.Address]).I(int64(m.Id)).I(dn(m.CollateralAsset)).Z(m.CollateralAmount.BigInt()).Z(m.Liabilities.BigInt()).Z(m.InterestPaidCollateral.BigInt()).
+			Z(m.InterestPaidCustody.BigInt()).Z(m.InterestUnpaidCollateral.BigInt()).I(dn(m.CustodyAsset)).Z(m.CustodyAmount.BigInt()).Z(m.Leverage.BigInt())
+	}
+	en.Margin(s2)
 	return en.Coq()
 }
